@@ -30,8 +30,8 @@ def _assigned(node):
 
 
 def extract_block(fn, block, name):
-    """block: a statement node inside fn.  Parameters = the names the block reads that are parameters or locals of fn
-    bound outside the block (first-use order); result = tuple of the fn-locals the block assigns that are also bound
+    """block: a statement node inside fn.  Parameters = all parameters of fn, then the locals of fn bound outside the
+    block that the block reads (first-use order); result = tuple of the fn-locals the block assigns that are also bound
     outside it (their value on entry is a parameter)."""
     params = [a.arg for a in fn.args.args]
     inside = set(id(n) for n in ast.walk(block))
@@ -44,7 +44,7 @@ def extract_block(fn, block, name):
             for x in _assigned_shallow(n):
                 if x not in outer_bound: outer_bound.append(x)
     in_assigned = _assigned(block)
-    reads = []
+    reads = list(params)        # every parameter of the enclosing function, used or not: a block that stops reading one keeps its signature
     for n in ast.walk(block):
         if isinstance(n, ast.Name) and isinstance(n.ctx, ast.Load) and n.id in outer_bound and n.id not in reads: reads.append(n.id)
     live_out = [x for x in in_assigned if x in outer_bound]
@@ -85,7 +85,18 @@ def _cli_coloured_rule(fn):
     return cands[0]
 
 
+def _cli_at_rule(fn):
+    """the unique `elif isinstance(node, AtRule):` statement of process_nodes_recursive"""
+    cands = [n for n in ast.walk(fn) if isinstance(n, ast.If) and isinstance(n.test, ast.Call) and ast.unparse(n.test.func) == 'isinstance'
+             and len(n.test.args) == 2 and ast.unparse(n.test.args[1]) == 'AtRule']
+    if len(cands) != 1: raise KeyError(f'{len(cands)} candidate at-rule blocks in process_nodes_recursive')
+    return cands[0]
+
+
 EXTRACTIONS = {
+    'cm_colors.cli.main:process_nodes_recursive__at_rule': dict(
+        outer='process_nodes_recursive', select=_cli_at_rule,
+        drops='the enclosing loop over the node list and the branch for qualified rules (a separate extraction)'),
     'cm_colors.cli.main:process_nodes_recursive__coloured_rule': dict(
         outer='process_nodes_recursive', select=_cli_coloured_rule,
         drops=("the enclosing loop over the node list, the parsing of the rule's declaration list and the scan for its last `color` / `background-color` "
